@@ -367,7 +367,8 @@ def compare(call, rec, lifetime_faulty, world_faulty):
     fns = "+".join(sorted(set(h["fn"] for h in call["helpers"])))
     if "error" in ref and "error" in acc:
         return out
-    if "error" in acc and dtype == "float16" and acc["error"] == "NotImplementedError":
+    used = {(h.get("dtype") or call["dtype"]) for h in call["helpers"]} | {call["dtype"]}
+    if "error" in acc and "float16" in used and acc["error"] == "NotImplementedError":
         out.append(("C08.unsupported|float16|accelerated-path-raises-NotImplementedError",
                     f"float16 column: USE_NUMBA=True raises NotImplementedError ({acc['msg'][:60]}), "
                     f"the Python path returns {ref.get('frame')}"))
